@@ -31,6 +31,7 @@ programs whose own module-level values change from import to import (clock etc.)
 """
 from __future__ import annotations
 
+import ast
 import collections
 import json
 import os
@@ -1020,9 +1021,51 @@ def history_experiment(src: str, mode: str, hsrcs: list, suffix, minimise: bool 
     return None, hsrcs, n
 
 
+class _SetsToTuples(ast.NodeTransformer):
+    """every set display / set(...) / frozenset(...) call of the program becomes a tuple display / tuple(...) call"""
+
+    def visit_Set(self, node):
+        self.generic_visit(node)
+        return ast.copy_location(ast.Tuple(elts=node.elts, ctx=ast.Load()), node)
+
+    def visit_Call(self, node):
+        self.generic_visit(node)
+        if isinstance(node.func, ast.Name) and node.func.id in ("set", "frozenset"):
+            node.func = ast.copy_location(ast.Name(id="tuple", ctx=ast.Load()), node.func)
+        return node
+
+
+def _without_sets(src: str):
+    try:
+        tree = ast.parse(src)
+        new = ast.unparse(ast.fix_missing_locations(_SetsToTuples().visit(tree))) + "\n"
+        return new if new != ast.unparse(ast.parse(src)) + "\n" else None
+    except Exception:  # noqa: BLE001
+        return None
+
+
+def via_set_object(src: str, mode: str, c, envs) -> bool:
+    """Attribution experiment for a hash-seed dependent difference: does it vanish (same two environments) when the
+    checked program's own set objects are replaced by tuples?  Then pyanalyze merely iterated a set OBJECT OF THE
+    CHECKED PROGRAM (CPython's order for it depends on the seed) - a different mechanism from pyanalyze building a
+    set of its own."""
+    alt = _without_sets(src)
+    if alt is None or not envs or len(envs) < 2:
+        return False
+    try:
+        ra = run_child(envs[0], [{"src": alt, "mode": mode}])[0][0]
+        rb = run_child(envs[1], [{"src": alt, "mode": mode}])[0][0]
+    except (ChildFailed, Exception):  # noqa: BLE001
+        return False
+    return all(x[1] != c[1] for x in classify_all(ra, rb))
+
+
 def report(ctx, axis: str, c, extra: dict, family: str, src: str, mode: str = "tests") -> None:
     code, kind, cls, da, db = c
     key = f"{axis}|{suffix_of(c)}"
+    if axis == "hashseed" and kind in ("union-member-order", "listed-names-order", "order-of-diagnostics") \
+            and cls != "repr of a set object" and via_set_object(src, mode, c, extra.get("envs")):
+        key += "|via:set-object-of-the-checked-program"
     wit = {"axis": axis, "source": src, "mode": mode, "family": family, "expect": suffix_of(c),
            "first_diff": [list(da) if da else None, list(db) if db else None]}
     wit.update(extra)
